@@ -504,15 +504,18 @@ func (sc *scenario) runClear() {
 
 func (sc *scenario) runAge() {
 	r := sc.r
-	sc.makeGroups(2, 2, 0) // group 0: max-history-age 2 s; group 1: default
-	g, g1 := sc.groups[0], sc.groups[1]
+	// group 0: max-history-age 2 s; group 1: default; group 2: 2 s, and it falls silent after
+	// its first messages, so that EVERY entry is too old when the probe joins
+	sc.makeGroups(3, 2, 0, 2)
+	g, g1, g2 := sc.groups[0], sc.groups[1], sc.groups[2]
 	S := sc.connect(pick(r, []string{"olga", "mike"}), -1)
 	W := sc.connect("otto", -1)
 	X := sc.connect("pia", -1)
+	Y := sc.connect("oscar", -1)
 	if sc.bad {
 		return
 	}
-	if !(sc.join(S, g) && sc.join(W, g) && sc.join(X, g1)) {
+	if !(sc.join(S, g) && sc.join(W, g) && sc.join(X, g1) && sc.join(Y, g2)) {
 		sc.abort()
 		return
 	}
@@ -526,12 +529,14 @@ func (sc *scenario) runAge() {
 	}
 	say(S, 2+r.IntN(4)) // will be older than 3.5 s
 	say(X, 2+r.IntN(3)) // same age in a group with the default limit: must survive
+	say(Y, 1+r.IntN(4)) // the whole history of group 2
 	time.Sleep(1900 * time.Millisecond)
 	say(S, 1+r.IntN(3)) // about 1.9 s old at the join: unconstrained
 	time.Sleep(1900 * time.Millisecond)
 	say(S, 2+r.IntN(4)) // fresh
 	sc.probe(g, "probe")
 	sc.probe(g1, "probe")
+	sc.probe(g2, "probe")
 	sc.checkpoint()
 	// and once more behind a quiescence point (still young enough unless the machine is very slow)
 	say(S, 1+r.IntN(3))
